@@ -93,6 +93,31 @@ func c06a(c *Ctx, v *variants.Variant) {
 				ce, _ = x.X.(*ast.CallExpr)
 			case *ast.DeferStmt:
 				ce = x.Call
+			case *ast.AssignStmt:
+				// a local of the guarded block, defined from a side-effect-free expression, names a value for the output
+				if x.Tok == token.DEFINE {
+					pure := true
+					for _, rh := range x.Rhs {
+						ast.Inspect(rh, func(n ast.Node) bool {
+							switch y := n.(type) {
+							case *ast.CallExpr:
+								if !pureCallees[callName(y)] {
+									pure = false
+								}
+							case *ast.UnaryExpr:
+								if y.Op == token.ARROW || y.Op == token.AND {
+									pure = false
+								}
+							case *ast.FuncLit:
+								pure = false
+							}
+							return true
+						})
+					}
+					if pure {
+						continue
+					}
+				}
 			}
 			if ce == nil || !bodyCallees[callName(ce)] {
 				bad = append(bad, v.Where(st.Pos())+": statement under a debug guard in "+fn+" is not a call of a printing helper: results would depend on Debug")
@@ -639,26 +664,47 @@ func memoTableTotal(c *Ctx, v *variants.Variant, rule string) {
 				parts[1] = "zero"
 			}
 		}
+		// a fact about the table, one of its rows or the entry itself: "absent" (empty, nil, not found) or "present"
+		absent := func(f string) bool {
+			if strings.HasPrefix(f, "!ok(") && strings.HasSuffix(f, ")") {
+				return true
+			}
+			return (strings.HasPrefix(f, "len(") && strings.HasSuffix(f, ")==0")) || strings.HasSuffix(f, "==nil")
+		}
+		present := func(f string) bool {
+			if strings.HasPrefix(f, "ok(") && strings.HasSuffix(f, ")") {
+				return true
+			}
+			return (strings.HasPrefix(f, "len(") && strings.HasSuffix(f, ")>0")) || strings.HasSuffix(f, "!=nil")
+		}
 		if parts[1] == "false" || parts[1] == "zero" {
-			// a miss: must be justified by an emptiness test taken positively
+			// a miss: must be justified by a fact that says the table, the row or the entry is absent (every
+			// disjunct of a disjunction must say so)
 			just := false
 			for _, f := range p.facts() {
-				if (strings.HasPrefix(f, "len(") && strings.HasSuffix(f, ")==0") || strings.HasSuffix(f, "==nil")) && !strings.Contains(f, node) {
+				all := true
+				for _, d := range splitTop(f, "||") {
+					if !absent(d) {
+						all = false
+					}
+				}
+				if all {
 					just = true
 				}
 			}
 			if !just {
-				bad = append(bad, "a miss is reported on the path ["+strings.Join(p.facts(), " ")+"] although the table was not found empty")
+				bad = append(bad, "a miss is reported on the path ["+strings.Join(p.facts(), " ")+"] although nothing was found absent")
 			}
 			continue
 		}
 		nHit++
-		// the answer of the map lookup itself: X[node], ok(X[node])
-		if !(strings.HasSuffix(parts[0], "["+node+"]") && parts[1] == "ok("+parts[0]+")") {
+		// the answer of the map lookup itself: X[node] with the flag of that lookup (or true where the path knows it)
+		flagOK := parts[1] == "ok("+parts[0]+")" || (parts[1] == "true" && p.holds("ok("+parts[0]+")"))
+		if !(strings.HasSuffix(parts[0], "["+node+"]") && flagOK) {
 			bad = append(bad, "the hit path returns "+ret+", not the result of the map lookup by node")
 		}
 		for _, f := range p.facts() {
-			if strings.Contains(f, node) || !(strings.HasPrefix(f, "len(") && (strings.HasSuffix(f, ")==0") || strings.HasSuffix(f, ")>0")) || strings.HasSuffix(f, "==nil") || strings.HasSuffix(f, "!=nil")) {
+			if !present(f) && !absent(f) {
 				bad = append(bad, "the lookup depends on `"+f+"`")
 			}
 		}
